@@ -149,9 +149,10 @@ class Choice(Sh):
 
 
 class Obj(Sh):
-    def __init__(self, cls, fields):
+    def __init__(self, cls, fields, klass=None):
         self.cls = cls
         self.fields = dict(fields)
+        self.klass = klass  # (module, ast.ClassDef) for instances of classes of the package
 
     def __repr__(self):
         return f"{self.cls}({self.fields})"
@@ -356,6 +357,8 @@ class Interp:
             return Fn("lib", name="identity")
         if fq == "re.compile":
             return Fn("lib", name="re.compile")
+        if fq == "collections.OrderedDict":
+            return Fn("lib", name="builtins.dict")
         if fq.startswith("numpy.") or fq.startswith("math.") or fq.startswith("datetime.") or fq.startswith("dateutil.") or fq.startswith("posixpath."):
             return Fn("lib", name=fq)
         if root in ("numpy", "math", "datetime", "operator", "copy", "itertools", "re", "dateutil", "posixpath", "json", "fsspec"):
@@ -636,6 +639,22 @@ class Interp:
         if isinstance(v, Obj):
             if attr in v.fields:
                 return v.fields[attr]
+            if getattr(v, "klass", None) is not None:
+                found = self.find_class_attr(v.klass[0], v.klass[1], attr)
+                if found is not None:
+                    kind, mod_, item = found
+                    if kind == "method":
+                        fi = mod_.funcs.get(item[0])
+                        if fi is not None:
+                            deco = [norm(d) for d in fi.node.decorator_list]
+                            bound = Fn("repo", func=fi, name=fi.qualname, closure=None, bound=v)
+                            if "property" in deco or any(d.endswith("cached_property") for d in deco):
+                                return self.call(bound, [], {}, node)
+                            if "staticmethod" in deco:
+                                return Fn("repo", func=fi, name=fi.qualname, closure=None)
+                            return bound
+                    elif kind == "value":
+                        return self.eval(item, self.module_scope(mod_))
             if v.cls == "Group" and attr in ("groups", "variables"):
                 data = v.fields.get("data")
                 if isinstance(data, DictS):
@@ -657,6 +676,23 @@ class Interp:
         if isinstance(v, Fn) and v.kind == "classctor":
             return Fn("lib", name=f"{v.name}.{attr}")
         return Top(f"attribute {attr} of {type(v).__name__}")
+
+    def find_class_attr(self, mod, cls, attr, _depth=0):
+        """-> ('method', module, (qualified name,)) | ('value', module, expr) for an attribute defined in a class of the package (or its bases)"""
+        for st in cls.body:
+            if isinstance(st, (ast.FunctionDef, ast.AsyncFunctionDef)) and st.name == attr:
+                q = self.repo._class_qual(mod, cls) + "." + attr
+                return "method", mod, (q,)
+            if isinstance(st, ast.Assign) and any(isinstance(t, ast.Name) and t.id == attr for t in st.targets):
+                return "value", mod, st.value
+        if _depth < 5:
+            for b in cls.bases:
+                r = self.repo.resolve_expr(mod, b)
+                if r.kind == "class":
+                    got = self.find_class_attr(r.mod, r.node, attr, _depth + 1)
+                    if got is not None:
+                        return got
+        return None
 
     def e_Subscript(self, e, sc):
         v = self.eval(e.value, sc)
@@ -903,6 +939,12 @@ class Interp:
             data = v.fields.get("data")
             if isinstance(data, DictS):
                 return [Const(k) for k in data.items]
+        if isinstance(v, Const) and isinstance(v.v, (bytes, bytearray)):
+            return [Const(x) for x in v.v]
+        if isinstance(v, Const) and isinstance(v.v, range):
+            return [Const(x) for x in v.v]
+        if isinstance(v, Const) and (v.v is None or isinstance(v.v, (int, float, bool))):
+            raise _Raise(f"TypeError: '{type(v.v).__name__}' object is not iterable", ["TypeError", "Exception", "BaseException", "object"])
         raise ShapeError(f"cannot iterate over {v!r} ({short(node, 50) if node is not None else ''})")
 
     def bind(self, target, value, sc):
@@ -930,7 +972,15 @@ class Interp:
         if isinstance(target, ast.Subscript):
             obj = self.eval(target.value, sc)
             k = self.eval(target.slice, sc)
+            if isinstance(k, TupS) and all(isinstance(x, Const) for x in k.elts):
+                k = Const(tuple(x.v for x in k.elts))
             if isinstance(k, Const):
+                if isinstance(obj, ListLit) and isinstance(k.v, int) and not isinstance(k.v, bool):
+                    try:
+                        obj.elts[k.v] = value
+                    except IndexError:
+                        raise _Raise("IndexError: list assignment index out of range", ["IndexError", "LookupError", "Exception", "BaseException", "object"])
+                    return
                 if isinstance(obj, DictS):
                     obj.items[k.v] = value
                     obj.optional.discard(k.v)
@@ -1061,6 +1111,25 @@ class Interp:
             if isinstance(owner, FuncInfo):
                 fi = owner.children.get(st.name)
             sc.vars[st.name] = Fn("repo", func=fi, name=st.name, closure=sc, node=st)
+            return
+        if isinstance(st, (ast.With, ast.AsyncWith)):
+            entered = []
+            for it in st.items:
+                cm = self.eval(it.context_expr, sc)
+                val = cm
+                if isinstance(cm, Obj):
+                    ent = cm.fields.get("__enter__") or (self.getattr(cm, "__enter__") if getattr(cm, "klass", None) is not None and self.find_class_attr(cm.klass[0], cm.klass[1], "__enter__") else None)
+                    if ent is not None:
+                        val = self.call(ent, [], {}, st)
+                entered.append(cm)
+                if it.optional_vars is not None:
+                    self.bind(it.optional_vars, val, sc)
+            try:
+                self.exec_block(st.body, sc, yields)
+            finally:
+                for cm in reversed(entered):
+                    if isinstance(cm, Obj) and "__exit__" in cm.fields:
+                        self.call(cm.fields["__exit__"], [Const(None), Const(None), Const(None)], {}, st)
             return
         if isinstance(st, ast.While):
             n = 0
@@ -1297,6 +1366,8 @@ class Interp:
             sc = closure.child(owner=fi if fi is not None else closure.owner)
         else:
             sc = self.module_scope(fi.module).child(owner=fi)
+        if getattr(f, "bound", None) is not None:
+            args = [f.bound] + list(args)
         self.bind_params(fnode.args, args, kwargs, sc, fi.qualname if fi else "<fn>")
         yields = []
         is_gen = any(isinstance(n, (ast.Yield, ast.YieldFrom)) for n in ast.walk(fnode) if n is not fnode) and not any(
@@ -1347,7 +1418,56 @@ class Interp:
             if name == "Variable" and isinstance(vals["dims"], Const) and isinstance(vals["dims"].v, str):
                 obj.fields["dims"] = ListLit([vals["dims"]])
             return obj
-        return Obj(name, dict(kwargs))
+        cls, mod = getattr(f, "cls", None), getattr(f, "mod", None)
+        if cls is None or mod is None:
+            return Obj(name, dict(kwargs))
+        obj = Obj(name, OrderedDict(), klass=(mod, cls))
+        is_dc = any("dataclass" in norm(d) for d in cls.decorator_list)
+        if is_dc:
+            names, defaults, noinit = [], {}, set()
+            for st in cls.body:
+                if isinstance(st, ast.AnnAssign) and isinstance(st.target, ast.Name):
+                    nm = st.target.id
+                    init = True
+                    if isinstance(st.value, ast.Call) and norm(st.value.func).split(".")[-1] == "field":
+                        for k in st.value.keywords:
+                            if k.arg == "init" and isinstance(k.value, ast.Constant) and k.value.value is False:
+                                init = False
+                            if k.arg == "default":
+                                defaults[nm] = k.value
+                            if k.arg == "default_factory":
+                                defaults[nm] = ast.Call(func=k.value, args=[], keywords=[])
+                    elif st.value is not None:
+                        defaults[nm] = st.value
+                    if init:
+                        names.append(nm)
+                    else:
+                        noinit.add(nm)
+            if len(args) > len(names):
+                raise _Raise(f"{name}() takes {len(names)} positional arguments")
+            vals = dict(zip(names, args))
+            for k, v in kwargs.items():
+                if k not in names or k in vals:
+                    raise _Raise(f"{name}() got an unexpected / repeated keyword {k}")
+                vals[k] = v
+            msc = self.module_scope(mod)
+            for nm in names:
+                if nm not in vals:
+                    if nm not in defaults:
+                        raise _Raise(f"{name}() missing {nm}")
+                    vals[nm] = self.eval(defaults[nm], msc)
+                obj.fields[nm] = vals[nm]
+            for nm in noinit:
+                if nm in defaults:
+                    obj.fields[nm] = self.eval(defaults[nm], msc)
+            if self.find_class_attr(mod, cls, "__post_init__") is not None:
+                self.call(self.getattr(obj, "__post_init__"), [], {}, node)
+            return obj
+        if self.find_class_attr(mod, cls, "__init__") is not None:
+            self.call(self.getattr(obj, "__init__"), list(args), dict(kwargs), node)
+            return obj
+        obj.fields.update(kwargs)
+        return obj
 
     def call_method(self, recv, name, args, kwargs, node):
         from .shapes_lib import call_method
